@@ -18,13 +18,16 @@ def gen_case(rng):
     nports = rng.choice([2, 2, 3])
     return {'kind': 'reuseupd', 'deltas': [rng.choice([1, 2, 10, 100]) for _ in range(nports)],
             'depth': rng.choice([0, 1, 1, 2]), 'ticks': rng.choice([3, 4]), 'init': rng.choice([0, 5]),
-            'glob': rng.random() < 0.3}
+            'glob': rng.random() < 0.3, 'leafports': rng.random() < 0.25}
 
 
 def corpus():
     return [{'kind': 'reuseupd', 'deltas': [1, 10], 'depth': 1, 'ticks': 4, 'init': 0, 'glob': False},
             {'kind': 'reuseupd', 'deltas': [1, 10, 100], 'depth': 2, 'ticks': 3, 'init': 5, 'glob': False},
-            {'kind': 'reuseupd', 'deltas': [2, 10], 'depth': 1, 'ticks': 3, 'init': 0, 'glob': True}]
+            {'kind': 'reuseupd', 'deltas': [2, 10], 'depth': 1, 'ticks': 3, 'init': 0, 'glob': True},
+            # leaf ports wired straight to one variable directly below the root
+            {'kind': 'reuseupd', 'deltas': [3, 10, 100], 'depth': 0, 'ticks': 3, 'init': 0, 'glob': False,
+             'leafports': True}]
 
 
 def _nest(depth, leaf):
@@ -39,7 +42,17 @@ def run_impl(case):
     from vivarium.core.process import Process
     ports = [f'p{i}' for i in range(len(case['deltas']))]
     depth = case['depth']
-    if case['glob']:
+    wires = None
+    if case.get('leafports'):
+        # every port IS a variable, and all of them are wired to the top-level variable `x`
+        schema = {p: {'_default': 0, '_emit': True} for p in ports}
+        UPD = {p: d for p, d in zip(ports, case['deltas'])}
+        init = {'x': case['init']}
+        wires = {p: ('x',) for p in ports}
+
+        def read(state):
+            return state['x']
+    elif case['glob']:
         schema = {p: {'*': _nest(depth, {'x': {'_default': 0, '_emit': True}})} for p in ports}
         UPD = {p: {'c0': _nest(depth, {'x': d})} for p, d in zip(ports, case['deltas'])}
         init = {'pool': {'c0': _nest(depth, {'x': case['init']})}}
@@ -70,7 +83,8 @@ def run_impl(case):
 
     obs = {}
     try:
-        eng = Engine(processes={'p': Const()}, topology={'p': {p: ('pool',) for p in ports}}, initial_state=init,
+        eng = Engine(processes={'p': Const()}, topology={'p': wires or {p: ('pool',) for p in ports}},
+                     initial_state=init,
                      emitter={'type': 'null'}, display_info=False, progress_bar=False)
         vals = []
         for _ in range(case['ticks']):
